@@ -271,6 +271,7 @@ fn cases(tier: Tier) -> &'static Vec<Case> {
 
 thread_local! {
     static OVERHEAD: std::cell::Cell<usize> = std::cell::Cell::new(0);
+    static OVERHEAD_SINGLE: std::cell::Cell<usize> = std::cell::Cell::new(0);
 }
 
 /// Peak heap of a trivial conversation in this process: the harness's own footprint.
@@ -281,13 +282,24 @@ fn overhead() -> usize {
     }
     let sc = Scenario::one_conn(vec![get("/calibrate")], AppProgram::simple());
     let mut worst = 0;
+    let mut worst_single = 0;
     for _ in 0..3 {
         let base = alloc::reset();
         let _ = run_scenario(&sc, &RunCfg { lean: true, ..RunCfg::default() });
-        worst = worst.max(alloc::measure(base).0);
+        let (peak, largest) = alloc::measure(base);
+        worst = worst.max(peak);
+        worst_single = worst_single.max(largest);
     }
     OVERHEAD.with(|c| c.set(worst.max(1)));
+    OVERHEAD_SINGLE.with(|c| c.set(worst_single));
     worst.max(1)
+}
+
+/// Largest single allocation of a trivial conversation in this process: per-server and
+/// per-connection constants (queues, buffers) that have nothing to do with what a client sends.
+fn overhead_single() -> usize {
+    let _ = overhead();
+    OVERHEAD_SINGLE.with(|c| c.get())
 }
 
 const SLACK: usize = 64 * 1024;
@@ -323,7 +335,9 @@ fn run_case(c: &Case, acc: &mut Acc, trace: bool) {
     let received = received + answered;
     let peak_bound = ov + SLACK + 64 * received;
     // (10^4 tiny header lines: the Vec of 48-byte Header structs alone is ~6 x the bytes received)
-    let single_bound = SLACK + 16 * received;
+    // constants of the implementation (e.g. a request queue pre-sized for 1024 entries,
+    // legit-changes/H-change2) are calibrated on a trivial conversation and doubled
+    let single_bound = SLACK.max(2 * overhead_single()) + 16 * received;
     if !res.panics.is_empty() {
         // the panic is the verdict; capturing its backtrace allocates megabytes by itself
     } else if largest > single_bound {
@@ -391,7 +405,7 @@ impl Check for C14 {
     fn rule(&self, tier: Tier) -> String {
         let classes: std::collections::BTreeSet<String> = cases(tier).iter().map(|c| c.class.clone()).collect();
         format!(
-            "adversarial conversations in {} classes ({:?}...): Content-Length from 0 to 10^30 x bytes actually sent {{0, 3, all}}; chunk-size lines of 1..40 hex digits truncated at every syntactic position; a chunked conversation cut at every offset; 10^3{} header lines; lines of {} bytes; NUL/control/8-bit/CR/LF/SP/colon at every position of a head; TE request header values of the malformed-q class; client reset/closed before the server looks at the connection (TCP-like and UNIX-like); a complete body of {{1..20000}} bytes (declared or chunked, with or without Expect) followed in the same segment by a pipelined request or surplus bytes; 5 000 (thorough 50 000) messages of one kind on one connection (refused with 505, valid with and without bodies, with Expect: 100-continue) - crossed with handlers read none / 1 byte / all x respond / drop; {} scenarios, each run in a worker process with a 6 GiB address-space cap; oracle: the worker survives, no panic passes through tiny_http code, largest single allocation <= 64 KiB + 16 x traffic, peak heap <= harness footprint + 64 KiB + 64 x traffic (traffic = bytes the client sent + bytes the server answered, which the harness keeps); measured in runs where the runtime records no per-step data",
+            "adversarial conversations in {} classes ({:?}...): Content-Length from 0 to 10^30 x bytes actually sent {{0, 3, all}}; chunk-size lines of 1..40 hex digits truncated at every syntactic position; a chunked conversation cut at every offset; 10^3{} header lines; lines of {} bytes; NUL/control/8-bit/CR/LF/SP/colon at every position of a head; TE request header values of the malformed-q class; client reset/closed before the server looks at the connection (TCP-like and UNIX-like); a complete body of {{1..20000}} bytes (declared or chunked, with or without Expect) followed in the same segment by a pipelined request or surplus bytes; 5 000 (thorough 50 000) messages of one kind on one connection (refused with 505, valid with and without bodies, with Expect: 100-continue) - crossed with handlers read none / 1 byte / all x respond / drop; {} scenarios, each run in a worker process with a 6 GiB address-space cap; oracle: the worker survives, no panic passes through tiny_http code, largest single allocation <= max(64 KiB, 2 x the largest allocation of a trivial conversation) + 16 x traffic, peak heap <= harness footprint + 64 KiB + 64 x traffic (traffic = bytes the client sent + bytes the server answered, which the harness keeps); measured in runs where the runtime records no per-step data",
             classes.len(), classes.iter().take(6).collect::<Vec<_>>(), if full(tier) { "/10^4" } else { "" }, if full(tier) { "1 MiB" } else { "128 KiB" }, cases(tier).len()
         )
     }
